@@ -225,7 +225,9 @@ def testing_helpers(repo, res):
             ok &= differ and s_.value.startswith("AssertionError(")
         else:
             n_ok += 1
-            ok &= cmp_called and not differ
+            # passing requires that the units were actually found equal (by Unit.__eq__), not merely "not found different"
+            same = s_.has(f"{UX} == {UY}", True) or s_.has(f"{UY} == {UX}", True)
+            ok &= cmp_called and not differ and same
     res.check(ok and n_raise >= 1 and n_ok >= 1, "assert_array_equal_units", fn.where(), "values are compared with NumPy and units with ==; a difference raises AssertionError", found=[(sorted(s_.facts), s_.kind, s_.effects) for s_ in sums][:3], rid=r3)
 
 
